@@ -22,7 +22,7 @@ func init() {
 			"R17-blocks — EnterBlock/LeaveBlock are paired on every non-raising path of each compile function that opens a scope; LeaveBlock and compileFunctionExpr call EndScope (every DbgLocalInfo gets an EndPc) and RegisterLocalVar records StartPc; R17-lines — no instruction that can raise at run time is attributed to the closing line of its statement (eline is reserved for block-closing instructions); R17-where — error positions and currentline are read from DbgSourcePositions[Pc-1] of the frame's own prototype; R07-parallel shared (the line table is written in lock-step with the code). " +
 			"R17-scope — the scope records debug.getlocal reads: the end of a scope is written through the block's own records (never through DbgLocals[register]), and the writer's convention for EndPc/StartPc (LastPC()+1, exclusive end) agrees with the reader's comparisons in LFunction.LocalName. NOT decided: which line each instruction receives, pc-range correctness after the peephole passes.",
 		Trusted: []string{},
-		Rules:   []func(*Ctx){ruleUpvalueAccessThroughItsCell, ruleHiddenLoopVariablesScope, ruleWhereKeepsSkipping, ruleSetLine, ruleRawRead, ruleBlocks, ruleWhere, ruleRaisingLines, ruleParallel, ruleScopes, ruleShebangLine, ruleOneLineReader, ruleGetStackLevel, ruleParenKeepsFunctionLine, ruleLocalAccessorsAgree, ruleTemporaryNeedsPositiveIndex},
+		Rules:   []func(*Ctx){ruleForprepRaisesAtItsOwnPc, ruleHiddenVariablesCoverTheIteratorCall, ruleUpvalueAccessThroughItsCell, ruleHiddenLoopVariablesScope, ruleWhereKeepsSkipping, ruleSetLine, ruleRawRead, ruleBlocks, ruleWhere, ruleRaisingLines, ruleParallel, ruleScopes, ruleShebangLine, ruleOneLineReader, ruleGetStackLevel, ruleParenKeepsFunctionLine, ruleLocalAccessorsAgree, ruleTemporaryNeedsPositiveIndex},
 	})
 }
 
@@ -436,10 +436,43 @@ func ruleBlocks(c *Ctx) {
 			if !r {
 				okc = false
 			}
-			// no second EnterBlock before the LeaveBlock
-			if g.walk(b, i, isLeave, func(x ssa.Instruction) bool { return isCallTo(x, enter) }) {
-				okc = false
+		}
+		// balanced and properly nested on every path: the depth of open blocks is the same however a
+		// block of the function is reached, never negative, and 0 at every return (a loop's own variables
+		// may live in a block nested in the block of its hidden variables)
+		depthAt := map[*ssa.BasicBlock]int{}
+		var visit func(b *ssa.BasicBlock, d int)
+		visit = func(b *ssa.BasicBlock, d int) {
+			if old, seen := depthAt[b]; seen {
+				if old != d {
+					okc = false
+				}
+				return
 			}
+			depthAt[b] = d
+			for _, in := range b.Instrs {
+				if !g.Live(in) {
+					return
+				}
+				if isCallTo(in, enter) {
+					d++
+				}
+				if isCallTo(in, leave) {
+					d--
+					if d < 0 {
+						okc = false
+					}
+				}
+				if isReturn(in) && d != 0 {
+					okc = false
+				}
+			}
+			for _, s := range g.Succs(b) {
+				visit(s, d)
+			}
+		}
+		if len(fn.Blocks) > 0 {
+			visit(fn.Blocks[0], 0)
 		}
 		c.check(okc, R, "paired:"+fname(fn), p.pos(fn.Pos()), "every EnterBlock is followed by exactly one LeaveBlock on every returning path", fname(fn)+" can return with a block still open (or opens two): later locals get registers/pc ranges of the wrong scope")
 	}
